@@ -129,9 +129,8 @@ mut("c03-group-name-alias-removed", ["C03"], ("step_group.go",
  "`yaml:\"group\" aliases:\"label,name\"`", "`yaml:\"group\" aliases:\"label\"`"))
 mut("c03-cache-size-tag-typo", ["C03", "C09"], ("step_command_cache.go",
  "`yaml:\"size,omitempty\"`", "`yaml:\"sizes,omitempty\"`"))
-mut("c03-json-inline-wins", ["C03"], ("json.go",
- "	for k, v := range inlineFields {\n		allFields[k] = v\n	}\n\n	// \"outline\" (non-inline) fields should take precedence over inline fields\n	for k, v := range outlineFields {\n		allFields[k] = v\n	}",
- "	for k, v := range outlineFields {\n		allFields[k] = v\n	}\n	for k, v := range inlineFields {\n		allFields[k] = v\n	}"))
+# (c03-json-inline-wins was dropped: typed fields and the inline map can never share a key after a parse, so swapping the
+#  precedence is behaviour-equivalent)
 mut("c09-cache-disabled-not-yaml", ["C09"], ("step_command_cache.go",
  "	Disabled bool     `yaml:\",omitempty\"`", "	Disabled bool     `yaml:\"-\"`"))
 mut("c09-matrix-adjustment-with-int-retyped", ["C09", "C02"], ("step_command_matrix.go",
@@ -166,7 +165,7 @@ mut("c07-merged-memo-across-siblings", ["C07", "C03"], ("ordered/yaml.go",
  "var mergedPool = make(map[*yaml.Node]bool)\n\nfunc rangeYAMLMap(n *yaml.Node, f func(key string, val *yaml.Node) error) error {\n	if len(mergedPool) > 64 {\n		mergedPool = make(map[*yaml.Node]bool)\n	}\n	delete(mergedPool, n)\n	return rangeYAMLMapImpl(mergedPool, n, f)\n}"))
 
 # ---- C08
-mut("c08-ordered-unmarshal-via-tomap", ["C08", "C03", "C10"], ("ordered/unmarshal.go",
+mut("c08-ordered-unmarshal-via-tomap", ["C08", "C03"], ("ordered/unmarshal.go",
  "	var warns []error\n	if err := tsrc.Range(func(k string, v any) error {\n		var dv V", "	var warns []error\n	rangeSrc := tsrc.Range\n	if tsrc.Len() > 8 {\n		um := tsrc.ToMap()\n		rangeSrc = func(f func(string, any) error) error {\n			for k, v := range um {\n				if err := f(k, v); err != nil {\n					return err\n				}\n			}\n			return nil\n		}\n	}\n	if err := rangeSrc(func(k string, v any) error {\n		var dv V"))
 mut("c08-legacy-plugins-sorted", ["C08", "C03"], ("plugins.go",
  "	case *ordered.MapSA:\n		// Legacy form:", "	case *ordered.MapSA:\n		if o.Len() > 2 {\n			sorted := ordered.NewMap[string, any](o.Len())\n			um := o.ToMap()\n			ks := make([]string, 0, len(um))\n			for k := range um {\n				ks = append(ks, k)\n			}\n			sort.Strings(ks)\n			for _, k := range ks {\n				sorted.Set(k, um[k])\n			}\n			o = sorted\n		}\n		// Legacy form:"),
@@ -185,7 +184,7 @@ mut("c13-type-nonstring-panics", ["C13"], ("steps.go",
  "		sTypeStr, ok := sType.(string)\n		if !ok {\n			return nil, fmt.Errorf(\"unmarshaling step: step's `type` key was %T (value %v), want string\", sType, sType)\n		}", "		sTypeStr, ok := sType.(string)\n		if !ok {\n			if l, isList := sType.([]any); isList {\n				sTypeStr = l[0].(string)\n			} else {\n				return nil, fmt.Errorf(\"unmarshaling step: step's `type` key was %T (value %v), want string\", sType, sType)\n			}\n		}"))
 
 # ---- C19
-mut("c19-lazy-compaction-in-get", ["C19", "C05"], ("ordered/map.go",
+mut("c19-lazy-compaction-in-get", ["C19"], ("ordered/map.go",
  "	idx, ok := m.index[k]\n	if !ok {\n		return zv, false\n	}\n	return m.items[idx].Value, true", "	idx, ok := m.index[k]\n	if !ok {\n		return zv, false\n	}\n	if len(m.items) > len(m.index) {\n		m.compact()\n		idx = m.index[k]\n	}\n	return m.items[idx].Value, true"))
 mut("c19-memoised-fullsource", ["C19"], ("plugin.go",
  "type Plugin struct {\n	Source string\n	Config any\n}", "type Plugin struct {\n	Source string\n	Config any\n\n	fullSource, fullSourceOf string\n}"),
